@@ -171,11 +171,25 @@ func c15R1(w *World, r *Report, rule string) {
 		f := fl.Before(ret)
 		r.check(f.Must("ok:Rename") && f.Must("ok:syncDir"), rule, fmt.Sprintf("Close:return-nil#%d", i), w.instrPos(ret), "nil only after rename-ok and directory fsync-ok", "Close reports success without a completed rename + directory fsync: the engine would acknowledge rows that a power loss discards")
 	}
+	// published is monotone: its only store is the constant true, in Close itself,
+	// after the durable publish. (A store of a computed value, or from a deferred
+	// closure, can clear it again: a later Abort would then delete a published file.)
+	nPub := 0
 	for _, fa := range w.fieldAccesses("renameOnCloseFile") {
-		if fa.Fn == fn && fa.Write && fa.Field == "published" {
-			f := fl.Before(fa.Instr)
-			r.check(f.Must("ok:Rename") && f.Must("ok:syncDir"), rule, "Close:published=true", w.instrPos(fa.Instr), "published only after the durable publish", "published is set before the publish is durable: a later Abort would leave a half-published file")
+		if !fa.Write || fa.Field != "published" || fa.InInit {
+			continue
 		}
+		nPub++
+		b, isC := constBool(fa.Val)
+		if fa.Fn != fn || !isC || !b {
+			r.bad(rule, "published:store@"+w.name(fa.Fn), w.instrPos(fa.Instr), "published is written with "+w.path(fa.Val)+" in "+w.name(fa.Fn)+": it must only ever be set to true by Close after the durable publish — a value that can become false again lets Abort (or a redundant Close) remove a file whose Close already succeeded")
+			continue
+		}
+		f := fl.Before(fa.Instr)
+		r.check(f.Must("ok:Rename") && f.Must("ok:syncDir"), rule, "Close:published=true", w.instrPos(fa.Instr), "published only after the durable publish", "published is set before the publish is durable: a later Abort would leave a half-published file")
+	}
+	if nPub == 0 {
+		r.bad(rule, "Close:published=true", w.pos(fn.Pos()), "published is never set: Abort after a successful Close deletes the published file")
 	}
 	// syncDir
 	if sd := fnOrUndecided(w, r, rule, "syncDir"); sd != nil {
